@@ -408,6 +408,12 @@ func (c *ReverseExpandQuery) executeQueryJob(
 		return nil, err
 	}
 
+	if len(userFilter) == 0 {
+		// A typed wildcard user cannot match a direct (non-wildcard) type reference. An empty filter
+		// must not reach the datastore, where it would mean "any user".
+		return nil, nil
+	}
+
 	if currentReq.relationStack == nil {
 		return nil, ErrEmptyStack
 	}
